@@ -8,7 +8,8 @@ ID = 'C04'
 RULE = ('cases: histories of up to 60 events over 3 thread ids x ~12 codes drawn per case from four kinds (every '
         'decodable ordinary name, the ten kernel trace-string/data names, known-but-undecoded names, ids unknown to '
         'the table) x the four qualifiers; built from single-event ops and macro ops (nested pair, crossing pair, '
-        're-opened START, stray END, same code on two threads, START..NONE..END window). Arguments are projected onto '
+        're-opened START, stray END, same code on two threads, START..NONE..END window, windows of 257..316 records). Timestamps are '
+        'increasing, decreasing or permuted (the stream order is the record order). Arguments are projected onto '
         'each decoder\'s domain; the pairing object is built with an empty or an already populated thread map. Oracle (declarative, after EVERY step, over the whole history): a trace is emitted '
         'iff (END with an open START of the same thread+code and the code is decodable) or (NONE/ALL of a decodable '
         'code; continuation fragments may emit 0 or 1); an END window satisfies E_min <= ktraces <= E_max as '
@@ -25,6 +26,8 @@ UNDECODED = ['BSC_pread_extended_info', 'PMAP_flush_TLBS', 'MACH_vm_page_release
              'VFS_LOOKUP_DONE', 'TRACE_LOST_EVENTS', 'DYLD_uuid_map_32_a', 'PERF_THD_Sample']
 UNKNOWN_IDS = [0x99990000, 0x0badf00c, 0x31ca0004, 0xfffffffc, 0x040cfff0]
 TIDS = [0x11, 0x22, 2 ** 40 + 5]
+COMPOSITES = ['PERF_Event', 'MACH_vmfault', 'DBG_DYLD_TIMING_LAUNCH_EXECUTABLE', 'BSC_open', 'BSC_rename', 'BSC_linkat',
+              'DBG_DYLD_TIMING_DLOPEN', 'BSC_execve', 'BSC_posix_spawn', 'BSC_stat64']
 
 _cache = {}
 
@@ -92,9 +95,19 @@ def is_subseq(a, b):
     return all(x in it for x in a)
 
 
-def run_history(evs_abs, prepopulated=False):
+def stamps(n, mode):
+    """timestamps are payload, not order: the stream order is the order of the records. increasing, decreasing or a
+    fixed permutation of distinct values (a dump merged from several cpu buffers is not sorted inside a window)"""
+    if mode == 'dec':
+        return [1000 + 7 * (n - i) for i in range(n)]
+    if mode == 'perm':
+        return [1000 + 7 * ((i * 37 + 11) % max(n, 1)) + (0 if n % 37 else i) for i in range(n)]
+    return None
+
+
+def run_history(evs_abs, prepopulated=False, ts_mode='inc'):
     """feed events one by one; returns list (per step) of emitted trace or None, and the real event objects"""
-    real = EV.realize(evs_abs)
+    real = EV.realize(evs_abs, ts_list=stamps(len(evs_abs), ts_mode))
     # the thread/process tables may already be populated when the pairing object is built (a thread map read
     # earlier, a second request on one PyKdebugParser): pairing must not depend on that
     tp = {t: 10 + i for i, t in enumerate(TIDS)} if prepopulated else {}
@@ -109,7 +122,7 @@ def prop_history(ctx, case):
     evs = [list(e) for e in case['events']]
     hist = [(t, c, q) for t, c, q, _ in evs]
     decodable = set(EV.all_decodable())
-    real, emitted = guard(run_history, evs, bool(case.get('prepopulated')))
+    real, emitted = guard(run_history, evs, bool(case.get('prepopulated')), case.get('ts', 'inc'))
     ident = {id(o): k for k, o in enumerate(real)}
     exps = analyse(hist, decodable)
     texts = []
@@ -147,7 +160,7 @@ def prop_history(ctx, case):
     if stray:
         evs2 = [e for j, e in enumerate(evs) if j not in set(stray)]
         # keep original timestamps irrelevant: texts do not show them
-        _, emitted2 = guard(run_history, evs2, bool(case.get('prepopulated')))
+        _, emitted2 = guard(run_history, evs2, bool(case.get('prepopulated')), case.get('ts', 'inc'))
         texts2 = [guard(str, t) for t in emitted2 if t is not None]
         if texts2 != texts:
             raise Violation('stray-end-changes-output', f'with stray ENDs {texts} without {texts2}')
@@ -176,6 +189,9 @@ def prop_history(ctx, case):
                         cls.add('nested-pair')
     kinds = {kind_of(c) for _, c, _ in hist}
     cls |= {'kind:' + k for k in kinds}
+    cls.add('timestamps:' + case.get('ts', 'inc'))
+    if any(e.get('window') and len(e['window'][2]) > 256 for e in exps):
+        cls.add('window-over-256-records')
     nt = bool(cls & {'qualifier-3', 're-opened-start', 'same-code-two-threads', 'stray-end', 'crossing-pair'})
     ctx.note([[TIDS.index(t) if t in TIDS else t, kind_of(c), q] for t, c, q in hist], nontrivial=nt, classes=cls)
 
@@ -185,7 +201,7 @@ PROPS = {'history': prop_history}
 
 # ----------------------------------------------------------------------------- generator
 
-def history_strategy(max_ops=25):
+def history_strategy(max_ops=25, kinds=(0, 0, 0, 0, 1, 2, 3, 4, 5, 6, 7), max_events=60, mostly_decodable=False):
     ordinary, trace, undec, unknown = name_pools()
 
     def build(t):
@@ -218,14 +234,25 @@ def history_strategy(max_ops=25):
                 ev(ti, a, 1, w1); ev(ti + 1, 0, q if q in (0, 3) else 0, (TIDS[ti % len(TIDS)],) + tuple(w2[1:]), code='TRACE_DATA_THREAD_TERMINATE'); ev(ti, a, 2, w3)
             elif kind == 6:      # window with a NONE inside
                 ev(ti, a, 1, w1); ev(ti, b, q if q in (0, 3) else 0, w2); ev(ti, a, 2, w3)
-        return {'events': out[:60], 'prepopulated': bool(ops and ops[0][5] & 1)}
+            elif kind == 8:      # a long window: hundreds of records of the thread between START and END
+                ev(ti, a, 1, w1)
+                for k in range(257 + seed % 60):
+                    ev(ti, b if k % 3 else a + 1, 0 if k % 5 else 3, S.expand_words(seed, 10 + k))
+                ev(ti, a, 2, w3)
+        s0 = ops[0][5] if ops else 0
+        return {'events': out[:max_events], 'prepopulated': bool(s0 & 1), 'ts': ['inc', 'inc', 'dec', 'perm'][(s0 >> 1) % 4]}
 
+    # decoders that read the records nested in their window get the same weight as a whole pool
+    composite = [n for n in COMPOSITES if n in set(ordinary)]
     code = st.one_of(st.sampled_from(ordinary), st.sampled_from(ordinary), st.sampled_from(trace),
-                     st.sampled_from(undec), st.sampled_from(unknown))
-    op = st.tuples(st.sampled_from([0, 0, 0, 0, 1, 2, 3, 4, 5, 6, 7]), st.integers(0, 2), st.integers(0, 11),
+                     st.sampled_from(undec), st.sampled_from(unknown), st.sampled_from(composite))
+    if mostly_decodable:
+        code = st.one_of(*[st.sampled_from(ordinary)] * 6, st.sampled_from(undec), st.sampled_from(unknown))
+    op = st.tuples(st.sampled_from(list(kinds)), st.integers(0, 2), st.integers(0, 11),
                    st.integers(0, 11), st.integers(0, 3), S.u64)
     return st.tuples(st.lists(code, min_size=2, max_size=12), st.lists(op, min_size=1, max_size=max_ops)).map(build)
 
 
 def run(ctx):
     ctx.run_given('history', history_strategy(), prop_history, ctx.n(1500, 20000))
+    ctx.run_given('history', history_strategy(max_ops=4, kinds=(8, 8, 0, 6, 4), max_events=700, mostly_decodable=True), prop_history, ctx.n(25, 300))
